@@ -221,6 +221,16 @@ example : accept { n := 2, deps := fun j => if j = 0 then [1] else [0], alwaysRu
 example : accept { n := 1, deps := fun _ => [0], alwaysRun := fun _ => false } = .cycle := by decide
 example : Cyclic { n := 1, deps := fun _ => [0], alwaysRun := fun _ => false } :=
   ⟨0, by decide, Relation.TransGen.single (by simp [Edge])⟩
+-- a command-less barrier (job 2) between the failing job 1 and its dependents 0 and 3 is a job like any other: it is
+-- skipped and passes the skip on; the always_run job 4 still runs
+example :
+    let g : Pipe := { n := 5, deps := fun j => if j = 2 then [1] else if j = 0 then [2] else if j = 3 then [2]
+                                     else if j = 4 then [3] else [], alwaysRun := fun j => j == 4 }
+    accept g = .ok [2, 0, 1, 3, 4] → False := by decide
+example :
+    let g : Pipe := { n := 5, deps := fun j => if j = 2 then [1] else if j = 0 then [2] else if j = 3 then [2]
+                                     else if j = 4 then [3] else [], alwaysRun := fun j => j == 4 }
+    accept g = .ok [1, 2, 0, 3, 4] ∧ runLocal g (fun j => j == 1) [1, 2, 0, 3, 4] = ([1, 4], true) := by decide
 example : Closed diamond := by unfold Closed; decide
 example : ¬ Cyclic diamond := fun hc => cyclic_rejected diamond hc [3, 1, 2, 0] (by decide)
 
